@@ -3,6 +3,8 @@
 //!
 //! Signatures are made here, so for every signature string the harness knows which key signed
 //! which bytes and reports that as the symbol (`sym`) the Coq model works with.
+mod trace;
+
 use ant_evm::{EncodedPeerId, PaymentQuote, ProofOfPayment, QuotingMetrics, RewardsAddress};
 use ant_networking::verif_hooks::{cmd as hooks, LocalSwarmCmd};
 use ant_networking::{Network, NetworkBuilder, NodeIssue};
@@ -393,6 +395,8 @@ fn run(case: &Value) -> Value {
 
 fn main() {
     std::panic::set_hook(Box::new(|_| {}));
+    // all decoder / handler runs happen under an active TRACE-level subscriber (see trace.rs)
+    trace::install();
     let stdin = std::io::stdin();
     let out = std::io::stdout();
     let mut out = out.lock();
